@@ -34,7 +34,7 @@ type meshCase struct {
 
 var meshOpKinds = []string{
 	"add", "add", "add", "add", "readd", "remove", "remove", "removeabsent", "addmesh",
-	"copy", "deepcopy", "translate", "scale", "snap", "xformobj", "invert",
+	"copy", "copy", "switch", "deepcopy", "translate", "scale", "snap", "xformobj", "invert",
 	"qfind1", "qfind2", "qfind3", "qneighbors", "qneighborsnew", "qvertices", "qitervertices", "qallneighbors", "qminmax", "qfull",
 }
 
@@ -392,12 +392,39 @@ func (s *meshState3) mapped(f func(model3d.Coord3D) model3d.Coord3D) []model3d.T
 	return out
 }
 
+// branch returns an independent model of a mesh object that holds the same face pointers as s
+// (what Copy returns, or the receiver that a derived mesh leaves behind).
+func (s *meshState3) branch(m *model3d.Mesh, indexed bool) *meshState3 {
+	b := &meshState3{m: m, tbl: append([]*model3d.Triangle{}, s.tbl...), present: map[*model3d.Triangle]bool{},
+		pool: append([]model3d.Coord3D{}, s.pool...), indexed: indexed}
+	for f, ok := range s.present {
+		b.present[f] = ok
+	}
+	return b
+}
+
 func checkMeshCase(c meshCase, o *kit.Obs) error {
 	s := &meshState3{m: model3d.NewMesh(), present: map[*model3d.Triangle]bool{}}
 	for _, p := range c.Pool {
 		s.pool = append(s.pool, mk3(p[0], p[1], p[2]))
 	}
 	np := len(s.pool)
+	// Every mesh object that is still alive keeps its own model: a Copy and its source (and the
+	// receiver of a derived-mesh call) must go on answering as their own face lists whatever is
+	// done to the other one afterwards.
+	live := []*meshState3{s}
+	keep := func(b *meshState3) {
+		live = append(live, b)
+		if len(live) > 4 { // bound the cost: forget the oldest mesh that is not the active one
+			for i, x := range live {
+				if x != s {
+					live = append(live[:i], live[i+1:]...)
+					break
+				}
+			}
+		}
+	}
+	siblingMutations := 0
 	// keep the pool in step with coordinate maps so queries keep hitting real vertices
 	remapPool := func(f func(model3d.Coord3D) model3d.Coord3D) {
 		for i, p := range s.pool {
@@ -453,9 +480,16 @@ func checkMeshCase(c meshCase, o *kit.Obs) error {
 			if e := samePtrSet3(m2.TriangleSlice(), s.faces()); e != nil {
 				err = fmt.Errorf("Copy: %w", e)
 			} else {
-				s.m, s.indexed = m2, false
+				b := s.branch(m2, false)
+				keep(b)
+				if op.I[1]%2 == 0 {
+					s = b // continue on the copy; the source stays alive
+				}
 			}
+		case "switch":
+			s = live[op.I[0]%len(live)]
 		case "deepcopy":
+			keep(s.branch(s.m, s.indexed))
 			m2 := s.m.DeepCopy()
 			for _, f := range m2.TriangleSlice() {
 				if s.present[f] {
@@ -498,6 +532,7 @@ func checkMeshCase(c meshCase, o *kit.Obs) error {
 				remapPool(f)
 			}
 		case "invert":
+			keep(s.branch(s.m, s.indexed))
 			inv := s.m.InvertNormals()
 			// every face reversed: same vertex set per face, opposite cyclic order
 			want := s.mapped(func(p model3d.Coord3D) model3d.Coord3D { return p })
@@ -567,8 +602,12 @@ func checkMeshCase(c meshCase, o *kit.Obs) error {
 		case "qfull":
 			err = s.full()
 		}
-		if err == nil {
-			err = s.light()
+		for i, x := range live {
+			if err == nil {
+				if err = x.light(); err != nil && x != s {
+					err = fmt.Errorf("live mesh #%d (not the one operated on): %w", i, err)
+				}
+			}
 		}
 		if err != nil {
 			return fmt.Errorf("%s: %w", where, err)
@@ -576,13 +615,33 @@ func checkMeshCase(c meshCase, o *kit.Obs) error {
 		if mutated && s.indexed {
 			s.mutatedAI++
 		}
+		if mutated {
+			for _, x := range live {
+				if x != s && x.indexed {
+					siblingMutations++
+				}
+			}
+		}
 	}
-	if s.mutatedAI > 0 {
+	total := 0
+	for _, x := range live {
+		total += x.mutatedAI
+	}
+	if total > 0 {
 		o.NonTrivial()
 		o.Label("mutation-after-index")
 	}
-	if err := s.full(); err != nil {
-		return fmt.Errorf("final: %w", err)
+	if siblingMutations > 0 {
+		o.NonTrivial()
+		o.Label("mutation-while-indexed-sibling-alive")
+	}
+	for i, x := range live {
+		if err := x.full(); err != nil {
+			if x != s {
+				return fmt.Errorf("final, live mesh #%d (not the one operated on last): %w", i, err)
+			}
+			return fmt.Errorf("final: %w", err)
+		}
 	}
 	return nil
 }
